@@ -24,7 +24,8 @@ EXPLANATION = (
     "limits), with the guards at the nesting depth the List[...] annotation has; R03.3 the normalising validators "
     "return the inputs in normal form on every ordering; R03.4 geometry_validate picks the class from the object's own "
     "tag in all three modes and sets from_attributes only for 'attributes'; R03.5 every validator path returns its "
-    "value or raises ValueError/AssertionError. pydantic's coercion, nesting-shape rejection and JSON dump are trusted."
+    "value or raises ValueError/AssertionError; R03.6 every point of the five point-sequence types is unpacked into exactly "
+    "two names (or its length is checked). pydantic's coercion, nesting-shape rejection and JSON dump are trusted."
 )
 ASSUMPTIONS = [
     "pydantic runs every @field_validator('coordinates') in after mode on coerced floats and converts ValueError / AssertionError (trusted)",
@@ -185,6 +186,36 @@ class C03:
                 return ("or" if t[1][1] == "any" else "and", tuple(parts))
         return tuple(self.expand_quantifiers(c, summ, v, fixed) for c in t)
 
+    def existentials(self, live, summ: Summary, v, fixed: Optional[int]):
+        """Bring the two spellings of "some element violates c" to one form.
+
+        `if any(c(e) for e in X): raise` and `if not all(ok(e) for e in X): raise` (X of free length) become the path
+        condition of `for e in X: if c(e): raise` -- inloop(L) and c(elem(L)) -- which the per-level grid evaluates;
+        a raise inside a statement loop over a fixed-length v becomes the disjunction over its positions."""
+        from sa.sym import AND
+        out = []
+        fixed_loops = []
+        for cj in conjuncts(live):
+            neg = False
+            t = cj
+            if t[0] == "not":
+                neg, t = True, t[1]
+            if t[0] == "call" and t[1] in (("builtin", "any"), ("builtin", "all")) and len(t[2]) == 1 and t[2][0][0] == "comp" \
+                    and len(t[2][0][3]) == 1 and (t[1][1] == "any") != neg and not (fixed and t[2][0][3][0][1] == v):
+                comp = t[2][0]
+                lid, it, conds = comp[3][0]
+                body = comp[2] if not neg else NOT(comp[2])
+                out += [("inloop", lid)] + list(conds) + [body]
+                continue
+            if cj[0] == "inloop" and fixed and cj[1] in summ.loops and summ.loops[cj[1]].iter == v and summ.loops[cj[1]].kind == "for":
+                fixed_loops.append(cj[1])
+                continue
+            out.append(cj)
+        f = AND(*out)
+        for lid in fixed_loops:
+            f = OR(*[subst(f, {("elem", lid): ("sub", v, ("const", i))}) for i in range(fixed)])
+        return f
+
     # ------------------------------------------------------------------ R03.2 / R03.5
     def check_class(self, c: ClassInfo):
         ctx, m = self.ctx, self.ctx.models
@@ -244,8 +275,35 @@ class C03:
             if nonid:
                 normalisers.append((v, s, vp))
             for r in s.raises:
-                live = self.expand_quantifiers(r.live, s, vp, spec.get("fixed"))
+                live = self.expand_quantifiers(self.existentials(r.live, s, vp, spec.get("fixed")), s, vp, spec.get("fixed"))
                 rejects.append((live, r, v, s, vp))
+        # R03.6: the arity of every (time, frequency) point is enforced
+        if spec.get("leaf") == "tf":
+            enforced = None
+            for v in vals:
+                s = ctx.summ.of_node(c.module, v.node, f"{c.qual}.{v.name}", c)
+                vp = ("param", s.params[1] if len(s.params) > 1 else s.params[0])
+                for lid, L in s.loops.items():
+                    if self.depth(("elem", lid), s, vp) != spec["depth"] or L.conds:
+                        continue
+                    try:
+                        tgt = ast.parse(L.target_text, mode="eval").body
+                    except SyntaxError:
+                        continue
+                    if isinstance(tgt, (ast.Tuple, ast.List)) and len(tgt.elts) == 2 and all(isinstance(e, ast.Name) for e in tgt.elts):
+                        enforced = f"`for {L.target_text} in ...` unpacks every point into exactly two names ({v.name})"
+                for r in s.raises:
+                    for x in conjuncts(r.live):
+                        if x[0] == "cmp" and x[1] == "ne" and ("const", 2) in (x[2], x[3]):
+                            o = x[3] if x[2] == ("const", 2) else x[2]
+                            if o[0] == "call" and o[1] == ("builtin", "len") and self.depth(o[2][0], s, vp) == spec["depth"]:
+                                enforced = f"`len(point) != 2` is rejected ({v.name})"
+            if enforced:
+                ctx.ok("R03.6", f"{FILE}:{c.node.lineno} {c.name}", enforced)
+            else:
+                ctx.bad("R03.6", FILE, c.name, "point arity",
+                        f"no validator of {c.name} forces every point to have exactly two values (a two-name unpack of each "
+                        f"point, or a len(point) != 2 rejection): a point with extra values is accepted and kept", c.node.lineno)
         loops_ok = True
         # loop provenance: every loop in the validators iterates the previous level without filter / slicing
         for v in vals:
@@ -560,6 +618,7 @@ def run(ctx: Ctx):
     ctx.rule("R03.3", "normalising validators produce normal form on every ordering", 2)
     ctx.rule("R03.4", "geometry_validate: class from own tag, from_attributes only for 'attributes', errors converted", 9)
     ctx.rule("R03.5", "validator discipline: after-mode on coordinates, returns value or raises convertible error", 12)
+    ctx.rule("R03.6", "every (time, frequency) point is forced to have exactly two values", 5)
     c = C03(ctx)
     classes = c.check_table()
     for k in classes:
